@@ -16,8 +16,8 @@ theorem wf_null (n : Nat) : Wf n (null n w) := ⟨length_null n, fun j _ => bit_
 
 theorem wf_set (hw : 0 < w) {n : Nat} {a : Words w} (h : Wf n a) {i : Nat} (hi : i < n) (v : Bool) :
     Wf n (set a i v) := by
-  refine ⟨by rw [length_set, h.len], fun j hj => ?_⟩
-  rw [bit_set hw a i v (h.len ▸ div_lt_nwords hw hi)]
+  refine ⟨by rw [length_set, h.1], fun j hj => ?_⟩
+  rw [bit_set hw a i v (h.1 ▸ div_lt_nwords hw hi)]
   have : j ≠ i := by omega
   simp [this, h.pad j hj]
 
@@ -37,8 +37,9 @@ theorem length_not (n : Nat) (a : Words w) : (not n a).length = a.length := by
   unfold not; split <;> simp
 
 /-- bit `j` of `~a`: the complement below the enum size, zero above it. -/
-theorem bit_not (hw : 0 < w) {n : Nat} {a : Words w} (h : Wf n a) (j : Nat) :
+theorem bit_not_len (hw : 0 < w) {n : Nat} {a : Words w} (hlen : a.length = nwords n w) (j : Nat) :
     bit (not n a) j = (decide (j < n) && !bit a j) := by
+  have h : a.length = nwords n w ∧ True := ⟨hlen, trivial⟩
   have hspec := nwords_spec hw n
   have hmw : j % w < w := Nat.mod_lt _ hw
   -- bit of the plain word-wise complement
@@ -47,9 +48,9 @@ theorem bit_not (hw : 0 < w) {n : Nat} {a : Words w} (h : Wf n a) (j : Nat) :
     unfold bit
     rw [List.getElem?_map]
     by_cases hl : j / w < a.length
-    · have : j / w < nwords n w := h.len ▸ hl
+    · have : j / w < nwords n w := h.1 ▸ hl
       simp [List.getElem?_eq_getElem hl, BitVec.getLsbD_not, Nat.mod_lt _ hw, this]
-    · have : ¬ j / w < nwords n w := h.len ▸ hl
+    · have : ¬ j / w < nwords n w := h.1 ▸ hl
       simp [List.getElem?_eq_none (Nat.le_of_not_lt hl), this]
   unfold not
   by_cases hr : n % w = 0
@@ -111,7 +112,7 @@ theorem bit_not (hw : 0 < w) {n : Nat} {a : Words w} (h : Wf n a) (j : Nat) :
       unfold bit at hbm
       have hjl : j / w < nwords n w := by
         rw [← hd]; omega
-      have hjl' : j / w < (a.map (~~~ ·)).length := by simp [h.len, hjl]
+      have hjl' : j / w < (a.map (~~~ ·)).length := by simp [h.1, hjl]
       rw [List.getElem?_eq_getElem hjl'] at hbm ⊢
       simp only [Option.map_eq_map, Option.map_some, BitVec.getLsbD_and]
       have hbm' : (List.map (fun x : BitVec w => ~~~x) a)[j / w].getLsbD (j % w) = _ := hbm
@@ -146,11 +147,51 @@ theorem bit_not (hw : 0 < w) {n : Nat} {a : Words w} (h : Wf n a) (j : Nat) :
           exact hjl (div_lt_nwords hw hjn)
         simp [hjl, this]
 
-theorem wf_not (hw : 0 < w) {n : Nat} {a : Words w} (h : Wf n a) : Wf n (not n a) := by
-  refine ⟨by rw [length_not, h.len], fun j hj => ?_⟩
-  rw [bit_not hw h]
+theorem bit_not (hw : 0 < w) {n : Nat} {a : Words w} (h : Wf n a) (j : Nat) :
+    bit (not n a) j = (decide (j < n) && !bit a j) := bit_not_len hw h.len j
+
+/-- `~` yields a well-formed array from any array of the right length, dirty padding included. -/
+theorem wf_not_len (hw : 0 < w) {n : Nat} {a : Words w} (h : a.length = nwords n w) : Wf n (not n a) := by
+  refine ⟨by rw [length_not, h], fun j hj => ?_⟩
+  rw [bit_not_len hw h]
   have : ¬ j < n := by omega
   simp [this]
+
+theorem wf_not (hw : 0 < w) {n : Nat} {a : Words w} (h : Wf n a) : Wf n (not n a) := wf_not_len hw h.len
+
+/-- Two arrays of the same length with the same bits are the same array. -/
+theorem ext_bits (hw : 0 < w) {a b : Words w} (hl : a.length = b.length)
+    (hall : ∀ j, bit a j = bit b j) : a = b := by
+  apply List.ext_getElem hl
+  intro k hk1 hk2
+  apply BitVec.eq_of_getLsbD_eq
+  intro t ht
+  have := hall (k * w + t)
+  unfold bit at this
+  have e1 : (k * w + t) / w = k := by
+    rw [Nat.mul_comm, Nat.mul_add_div hw, Nat.div_eq_of_lt ht, Nat.add_zero]
+  have e2 : (k * w + t) % w = t := by
+    rw [Nat.mul_comm, Nat.mul_add_mod, Nat.mod_eq_of_lt ht]
+  rw [e1, e2, List.getElem?_eq_getElem hk1, List.getElem?_eq_getElem hk2] at this
+  exact this
+
+/-- bit `j` after `a.array()[k] = x` -/
+theorem bit_poke (a : Words w) (k : Nat) (x : BitVec w) (hk : k < a.length) (j : Nat) :
+    bit (poke a k x) j = if j / w = k then x.getLsbD (j % w) else bit a j := by
+  unfold bit poke
+  rw [List.getElem?_set]
+  by_cases h : k = j / w
+  · subst h; simp [hk]
+  · have h' : ¬ j / w = k := fun e => h e.symm
+    simp [h, h']
+
+theorem wf_poke {n : Nat} {a : Words w} (h : Wf n a) {k : Nat} (hk : k < nwords n w) (x : BitVec w)
+    (hx : ∀ j, n ≤ j → j / w = k → x.getLsbD (j % w) = false) : Wf n (poke a k x) := by
+  refine ⟨by simp [poke, h.len], fun j hj => ?_⟩
+  rw [bit_poke a k x (h.len ▸ hk)]
+  by_cases e : j / w = k
+  · simp [e, hx j hj e]
+  · simp [e, h.pad j hj]
 
 /-- Two well-formed arrays with the same bits below `n` are the same array. -/
 theorem wf_ext (hw : 0 < w) {n : Nat} {a b : Words w} (ha : Wf n a) (hb : Wf n b)
